@@ -32,6 +32,7 @@ LEVEL_TEXT = ("Generated docstrings in the standard doctest syntax (30 example k
               "separation, indentation) whose wants are produced by the standard module; every text the standard module "
               "passes must pass under xdoctest with the same examples executed. Differential exploration against an "
               "independent, trusted implementation.")
+LEVEL_ADDED = ('In a quarter of the texts runs of examples carry an indentation of their own (the standard module reads every example with the indentation of its prompt); the shape of finding F17 is kept out of 5 in 6 of the texts that would have it.')
 LEVEL_NOTE = ("Trusted: CPython's doctest module as the oracle. Texts the standard module itself rejects are discarded and "
               "counted. Tabs in wants, wants beginning with '...', and doctest options xdoctest documents as unsupported "
               "are not generated.")
